@@ -1,6 +1,7 @@
 package handshake
 
 import (
+	"encoding/json"
 	"fmt"
 
 	sdk "github.com/cosmos/cosmos-sdk/types"
@@ -190,6 +191,9 @@ func (w *World) Exec(a Action) (res string, errStr string) {
 
 	case "ChanCloseInit":
 		return w.sendTx(c, channeltypes.NewMsgChannelCloseInit(realPort(str(a.Port)), chanID(i64(a.Chan)), w.signer(c)))
+
+	case "ForeignConn", "ForeignChan":
+		return w.foreignWrite(c, a)
 	}
 	chain.NextBlock()
 	return "err", "unknown action " + a.A
@@ -255,4 +259,75 @@ func (w *World) freeze(c string) (string, string) {
 		return "err", err.Error()
 	}
 	return w.sendTx(c, msg)
+}
+
+func realConnState(s string) connectiontypes.State {
+	switch s {
+	case "INIT":
+		return connectiontypes.INIT
+	case "TRYOPEN":
+		return connectiontypes.TRYOPEN
+	case "OPEN":
+		return connectiontypes.OPEN
+	}
+	return connectiontypes.UNINITIALIZED
+}
+
+func realChanState(s string) channeltypes.State {
+	switch s {
+	case "INIT":
+		return channeltypes.INIT
+	case "TRYOPEN":
+		return channeltypes.TRYOPEN
+	case "OPEN":
+		return channeltypes.OPEN
+	case "CLOSED":
+		return channeltypes.CLOSED
+	}
+	return channeltypes.UNINITIALIZED
+}
+
+// foreignWrite makes chain c play a counterparty that is not ibc-go: the next block of c commits the given value
+// for one of its EXISTING connection / channel ends, written straight into c's store (no ibc-go handler of c is
+// involved; nothing else of c changes).  The other chain is the code under test: it is later relayed genuine
+// proofs of that end.  An end that does not exist (or another port) is left alone: empty block, "err".
+func (w *World) foreignWrite(c string, a Action) (res string, errStr string) {
+	chain := w.ch[c]
+	defer func() {
+		if r := recover(); r != nil {
+			res, errStr = "panic", fmt.Sprint(r)
+		}
+	}()
+	ctx := chain.GetContext()
+	k := chain.App.GetIBCKeeper()
+	switch a.A {
+	case "ForeignConn":
+		var e ForeignConnE
+		id := connID(i64(a.Conn))
+		_, found := k.ConnectionKeeper.GetConnection(ctx, id)
+		if err := json.Unmarshal(a.E, &e); err != nil || !found || a.Conn == nil {
+			chain.NextBlock()
+			return "err", "no such connection end / bad end"
+		}
+		end := connectiontypes.NewConnectionEnd(realConnState(e.St), w.realClient(e.Cl),
+			connectiontypes.NewCounterparty(w.realClient(e.Cpcl), connID(e.Cpconn), commitmenttypes.NewMerklePrefix([]byte(e.Pfx))),
+			realVersions(e.Vers), uint64(e.Delay))
+		k.ConnectionKeeper.SetConnection(ctx, id, end)
+	case "ForeignChan":
+		var e ForeignChanE
+		if err := json.Unmarshal(a.E, &e); err != nil || a.Chan == nil {
+			chain.NextBlock()
+			return "err", "bad end"
+		}
+		id := chanID(i64(a.Chan))
+		if _, found := k.ChannelKeeper.GetChannel(ctx, realPort(e.Port), id); !found {
+			chain.NextBlock()
+			return "err", "no such channel end"
+		}
+		end := channeltypes.NewChannel(realChanState(e.St), realOrder(e.Ord),
+			channeltypes.NewCounterparty(realPort(e.Cpport), chanID(e.Cpchan)), hopIDs(e.Hops), e.Ver)
+		k.ChannelKeeper.SetChannel(ctx, realPort(e.Port), id, end)
+	}
+	chain.NextBlock()
+	return "ok", ""
 }
